@@ -541,7 +541,14 @@ pub unsafe extern "C" fn write(fd: libc::c_int, buf: *const libc::c_void, count:
 pub unsafe extern "C" fn open(path: *const libc::c_char, flags: libc::c_int, mode: libc::mode_t) -> libc::c_int {
   let p = if path.is_null() { String::new() } else { std::ffi::CStr::from_ptr(path).to_string_lossy().into_owned() };
   if let Some(fd) = crate::supervise::hook_open(&p, flags) { return fd; }
-  match with_sys(|sys| if sys.full.is_some() { sys.su_open(&p, flags) } else { None }) {
+  // the cfg hook run_real_driver makes its readers with their own `open` on /proc/self/fd/<descriptor>: the scripted keyboard / tablet
+  // descriptor is handed out under a fresh number (any descriptor epoll accepts), which from now on is the scripted one
+  match with_sys(|sys| {
+    if sys.full.is_some() { return sys.su_open(&p, flags); }
+    if p == format!("/proc/self/fd/{}", sys.kfd) { let n = new_fd(); sys.kfd = n; return Some(n); }
+    if sys.tfd >= 0 && p == format!("/proc/self/fd/{}", sys.tfd) { let n = new_fd(); sys.tfd = n; return Some(n); }
+    None
+  }) {
     Some(fd) => fd,
     None => libc::syscall(libc::SYS_open, path, flags, mode as libc::c_uint) as libc::c_int
   }
@@ -582,7 +589,7 @@ fn run_one_sys(id: &str, layout: &Layout, labels: &[Lbl], fault: usize, sleep: &
   let lay = layout.clone();
   let r = std::panic::catch_unwind(std::panic::AssertUnwindSafe(|| crate::remapping_loop::verif::run_real_driver(kfd, wfd, if with_tablet { Some(tfd) } else { None }, lay)));
   let sys = sys_take();
-  unsafe { libc::close(kfd); if tfd >= 0 { libc::close(tfd); } libc::close(wfd); }
+  unsafe { libc::close(kfd); if tfd >= 0 { libc::close(tfd); } libc::close(wfd); if sys.kfd != kfd { libc::close(sys.kfd); } if sys.tfd != tfd && sys.tfd >= 0 { libc::close(sys.tfd); } }
   write_trace(id, layout, fault, sleep, &sys.d, r, json!({"mode": "sys", "slack": 999, "errtext": false, "noise": noise, "werr": werr}), out);
   sys.d.calls
 }
@@ -644,7 +651,7 @@ fn walk_run(layout: &Layout, history: &[(Option<Event>, Vec<Event>)], noise: u8,
   let lay = layout.clone();
   let r = std::panic::catch_unwind(std::panic::AssertUnwindSafe(|| crate::remapping_loop::verif::run_real_driver(kfd, wfd, Some(tfd), lay)));
   let sys = sys_take();
-  unsafe { libc::close(kfd); libc::close(tfd); libc::close(wfd); }
+  unsafe { libc::close(kfd); libc::close(tfd); libc::close(wfd); if sys.kfd != kfd { libc::close(sys.kfd); } if sys.tfd != tfd { libc::close(sys.tfd); } }
   (sys, r)
 }
 
